@@ -264,6 +264,7 @@ const (
 	zzEvUndeterminedRegionErr
 	zzEvCommitTsExpired
 	zzEvForeignResolve // another client's resolver rolls our primary back just before this request is executed
+	zzEvDelay          // the request is held back while other requests of the transaction proceed (concurrent batches only)
 	zzNumEvents
 )
 
@@ -279,6 +280,7 @@ type zzCluster struct {
 	foreignRollbackAllowed bool
 	foreignRolledBack      bool
 	onePCAllowed           bool
+	delays                 bool     // the script may hold a request back (concurrent batches)
 	lockExpired            bool     // what the store answers about ttl expiry to a foreign resolver
 	realResolver           func(key []byte) // runs another client's real LockResolver on the lock of key
 	noForeignResolver      bool     // the foreign-resolver event is not part of the script
@@ -290,6 +292,28 @@ type zzCluster struct {
 	primary                []byte // the transaction under test (for the foreign-resolver event)
 	startTS                uint64
 	unmodelled             bool
+}
+
+// runForeign: another client meets one of our locks (which one is a choice) and
+// runs the REAL lock resolver on it; its RPCs come back into this client and
+// no faults are injected on them. Called with c.mu held.
+func (c *zzCluster) runForeign() {
+	var locked [][]byte
+	for _, ks := range c.keys {
+		if ks.lock != nil && ks.lock.startTS == c.startTS {
+			locked = append(locked, ks.key)
+		}
+	}
+	if len(locked) == 0 {
+		return
+	}
+	k := locked[zzChoice("foreign.meets", len(locked))]
+	saved := c.faults
+	c.faults = 0
+	c.mu.Unlock()
+	c.realResolver(k)
+	c.mu.Lock()
+	c.faults = saved
 }
 
 func (c *zzCluster) eventName(req *tikvrpc.Request) string {
@@ -725,8 +749,11 @@ func (c *zzClient) SendRequest(ctx context.Context, addr string, req *tikvrpc.Re
 				allowed = append(allowed, zzEvCommitTsExpired)
 			}
 		}
-		if !cl.noForeignResolver && cl.primary != nil && cl.lockedBy(cl.primary, cl.startTS) {
+		if !cl.noForeignResolver && cl.primary != nil && (cl.lockedBy(cl.primary, cl.startTS) || (cl.realResolver != nil && cl.anyLockOf(cl.startTS))) {
 			allowed = append(allowed, zzEvForeignResolve)
+		}
+		if cl.delays {
+			allowed = append(allowed, zzEvDelay)
 		}
 		// the draw is named after the request it decides, so that a native replay
 		// matches it regardless of the order in which goroutines send
@@ -766,23 +793,20 @@ func (c *zzClient) SendRequest(ctx context.Context, addr string, req *tikvrpc.Re
 		resp, _ := tikvrpc.GenRegionErrorResp(req, &errorpb.Error{Message: "epoch", EpochNotMatch: &errorpb.EpochNotMatch{}})
 		rpc.answered = true
 		return finish(resp, nil)
+	case zzEvDelay:
+		// let the other batches of the transaction run first; afterwards another
+		// client may already have met (and resolved) one of their locks
+		cl.mu.Unlock()
+		zzYield()
+		cl.mu.Lock()
+		if cl.realResolver != nil && cl.anyLockOf(cl.startTS) && zzChoice("after-delay.foreign", 2) == 1 {
+			cl.runForeign()
+		}
 	case zzEvForeignResolve:
 		if cl.realResolver != nil {
 			// another client meets one of our locks and runs the REAL lock resolver
 			// on it; its RPCs come back into this client (no faults are injected on them)
-			var locked [][]byte
-			for _, ks := range cl.keys {
-				if ks.lock != nil && ks.lock.startTS == cl.startTS {
-					locked = append(locked, ks.key)
-				}
-			}
-			k := locked[zzChoice("foreign.meets", len(locked))]
-			saved := cl.faults
-			cl.faults = 0
-			cl.mu.Unlock()
-			cl.realResolver(k)
-			cl.mu.Lock()
-			cl.faults = saved
+			cl.runForeign()
 		} else {
 			cl.foreignResolve(cl.primary, cl.startTS)
 		}
